@@ -57,10 +57,12 @@ func (w *chainWorld) chooseBounds(rnd *rand.Rand, bs []uint32, h uint32) []bound
 
 func randomConfigs(rnd *rand.Rand) []repCfg {
 	return []repCfg{
-		{Name: "m1", Backend: "mem", FlushPM: 150, RestPM: 60},                        // flushes rarely: most answers come from the write cache
-		{Name: "b2", Backend: "bolt", FlushPM: 500, RestPM: 120},                      // flushes and restarts often
-		{Name: "l3", Backend: "level", FlushPM: 1000, RestPM: 0},                      // flushes after every block
-		{Name: "g4", Backend: "bolt", GC: true, GCP: uint32(2 + rnd.Intn(3)), FlushPM: 450, RestPM: 50}, // transfer GC
+		{Name: "m1", Backend: "mem", FlushPM: 150, RestPM: 60},                                          // flushes rarely: most answers come from the write cache
+		{Name: "b2", Backend: "bolt", FlushPM: 500, RestPM: 120},                                        // flushes and restarts often
+		{Name: "l3", Backend: "level", FlushPM: 1000, RestPM: 0},                                        // flushes after every block
+		{Name: "g4", Backend: "bolt", GC: true, GCP: uint32(3 + rnd.Intn(2)), FlushPM: 450, RestPM: 30}, // transfer GC; the period
+		// keeps MaxTraceableBlocks (12..17) within 7 periods: removeOldTransfers takes the bound's timestamp from an
+		// in-memory LRU of the last 8 period blocks and silently skips the collection otherwise
 	}
 }
 
